@@ -331,6 +331,15 @@ pub fn component_valid(resolve: &Resolve, world: wit_parser::WorldId) -> Result<
     wasmparser::Validator::new_with_features(wasmparser::WasmFeatures::all())
         .validate_all(&bytes)
         .map_err(|e| format!("{e:#}"))?;
+    // the component encoder merges semver-compatible imports of the world first; wit-parser
+    // 0.257 panics there for some worlds importing two compatible versions of a package
+    // (Resolve::update_interface_dep_of_type, "no entry found for key"): such a world is outside
+    // the encoder's domain, whatever bindings are generated for it
+    let mut copy = resolve.clone();
+    match vcommon::panics::catch(std::panic::AssertUnwindSafe(move || copy.merge_world_imports_based_on_semver(world).map_err(|e| format!("{e:#}")))) {
+        Ok(r) => r.map_err(|e| format!("semver merge of the world's imports: {e}"))?,
+        Err(p) => return Err(format!("wit-parser panics while merging the world's semver-compatible imports (third-party defect): {}", p.render())),
+    }
     Ok(())
 }
 
